@@ -443,9 +443,14 @@ void build_menus() {
     lin({2, 0}, -1, GE),      // 11: x >= 1/2
     lin({1, -1}, -1, EQ),     // 12: x - y = 1
     lin({-2, 0}, 3, GE),      // 13: x <= 3/2
+    // bounds whose nearest point of a lattice of period 3/2 (2x = 0 or 1 mod 3) lies on the infeasible side
+    lin({1, 0}, -2, GE),      // 14: x >= 2
+    lin({-1, 0}, 1, GE),      // 15: x <= 1
+    lin({1, 0}, 1, GE),       // 16: x >= -1
   };
-  CGS = { {LE({1, 0}, 0), 2}, {LE({1, 0}, -1), 0}, {LE({1, 0}, 1), 2}, {LE({1, 1}, 0), 3}, {LE({2, 0}, 1), 2} };
-  AFF = { {0, LE({1, 0}, 1), 1}, {0, LE({1, 1}, 0), 1}, {0, LE({2, 0}, 0), 1}, {0, LE({1, 0}, 0), 2}, {0, LE({0, 0}, 1), 1}, {1, LE({-1, 0}, 0), 1}, {0, LE({-1, 0}, 3), 1} };
+  CGS = { {LE({1, 0}, 0), 2}, {LE({1, 0}, -1), 0}, {LE({1, 0}, 1), 2}, {LE({1, 1}, 0), 3}, {LE({2, 0}, 1), 2},
+          {LE({2, 0}, 0), 3}, {LE({2, 0}, -1), 3} };    // 2x = 0 mod 3, 2x = 1 mod 3: period 3/2 (non-integral frequencies)
+  AFF = { {0, LE({1, 0}, 1), 1}, {0, LE({1, 1}, 0), 1}, {0, LE({2, 0}, 0), 1}, {0, LE({1, 0}, 0), 2}, {0, LE({0, 0}, 1), 1}, {1, LE({-1, 0}, 0), 1}, {0, LE({-1, 0}, 3), 1}, {0, LE({3, 0}, 0), 4} };
 }
 
 // ------------------------------------------------------------------ operations
@@ -498,7 +503,7 @@ void build_ops() {
       CN c = CONS[ci];
       bool sub1 = (ci == 1 || ci == 4 || ci == 7 || ci == 8 || ci == 11);
       if (t == 1 && !sub1) continue;
-      Op o; o.t = t; o.method = "refine_with_constraint"; o.name = slot(t) + ".refine_with_constraint(" + c.str() + ")"; o.builder = true;
+      Op o; o.t = t; o.method = "refine_with_constraint"; o.name = slot(t) + ".refine_with_constraint(" + c.str() + ")"; o.builder = (ci < 14 || kGrid);
       o.ok = [t, c](CP p) { return fits(c.e, p.s[t].dim); };
       o.apply = [t, c](Pool2& P) { P.p[t]->refine_with_constraint(c.ppl()); return std::string(); };
       o.img = [c](const Cell& I, const Cell&) { Cell r = I; if (!r.bot) r.rows.push_back(c.row(I.n)); return r; };
@@ -768,7 +773,7 @@ void build_transformers() {
     add_tr(o, tr); }
   for (size_t ai = 0; ai < AFF.size(); ++ai) for (int pre_ = 0; pre_ < 2; ++pre_) {
     AF af = AFF[ai];
-    Op o = mk(pre_ ? "affine_preimage" : "affine_image", std::string(1, char('A' + af.var)) + ", " + af.e.str() + ", " + std::to_string(af.d), !pre_ && ai < 2, false,
+    Op o = mk(pre_ ? "affine_preimage" : "affine_image", std::string(1, char('A' + af.var)) + ", " + af.e.str() + ", " + std::to_string(af.d), !pre_ && (ai < 2 || (kGrid && ai == 7)), false,
               [af](CP p) { return af.var < p.s[0].dim && fits(af.e, p.s[0].dim); },
               [af, pre_](Pool2& P) { if (pre_) P.p[0]->affine_preimage(Variable(af.var), af.e.ppl(), Coefficient(af.d)); else P.p[0]->affine_image(Variable(af.var), af.e.ppl(), Coefficient(af.d)); return std::string(); });
     Tr tr; tr.img = [af, pre_](const Cell& c, const Cell&) { RefGuard g; Cell rel = ref::rel_affine(c.n, af.var, af.e.vec(c.n), Q(af.e.b), Q(af.d)); return one(pre_ ? ref::preimage(c, rel) : ref::image(c, rel)); };
@@ -857,6 +862,7 @@ void make_init(int i, Pool2& P) {
   // narrow ranges with one STRICT end at a non-multiple of the moduli of the congruence menu, on the negative and on
   // the positive side (a congruence reduction must keep the single hyperplane A = -4 resp. A = 4)
   if (INITS[i].strict0 == 1) { P.p[0]->refine_with_constraint(Variable(0) >= -4); P.p[0]->refine_with_constraint(Variable(0) < -3); }
+  if (INITS[i].strict0 == 3) P.p[0]->refine_with_congruence((2 * Variable(0) %= 0) / 3);     // lattice of period 3/2
   if (INITS[i].strict0 == 2) { P.p[0]->refine_with_constraint(Variable(0) > 3); P.p[0]->refine_with_constraint(Variable(0) <= 4); }
 }
 std::vector<int> ops_of(int s) { std::vector<int> h; while (ST[s].parent >= 0) { h.push_back(ST[s].op); s = ST[s].parent; } std::reverse(h.begin(), h.end()); return h; }
@@ -881,10 +887,11 @@ long long TRANS_A = 0;
 std::string state_key(const Pool2& P) { return P.p[0]->dump() + "\n=====\n" + P.p[1]->dump(); }
 
 void phase_a(int depth_max, const std::vector<int>& dims) {
-  for (int d : dims) for (int e = 0; e < 5; ++e) {
+  for (int d : dims) for (int e = 0; e < 6; ++e) {
     if (e == 4 && d != 1) continue;
-    Init in; in.dim = d; in.empty0 = (e == 1); in.box0 = (e == 2); in.strict0 = e == 3 ? 1 : e == 4 ? 2 : 0;
-    in.name = "dim " + std::to_string(d) + ": p0 = " + (e == 1 ? "EMPTY" : e == 2 ? "BOX02" : e == 3 ? "NEGSTRICT(-4<=A<-3)" : e == 4 ? "POSSTRICT(3<A<=4)" : "UNIVERSE") + ", p1 = UNIVERSE";
+    if (e == 5 && !kGrid) continue;
+    Init in; in.dim = d; in.empty0 = (e == 1); in.box0 = (e == 2); in.strict0 = e == 3 ? 1 : e == 4 ? 2 : e == 5 ? 3 : 0;
+    in.name = "dim " + std::to_string(d) + ": p0 = " + (e == 1 ? "EMPTY" : e == 2 ? "BOX02" : e == 3 ? "NEGSTRICT(-4<=A<-3)" : e == 4 ? "POSSTRICT(3<A<=4)" : e == 5 ? "RATGRID(2A=0 mod 3)" : "UNIVERSE") + ", p1 = UNIVERSE";
     INITS.push_back(in);
     Pool2 P; make_init((int)INITS.size() - 1, P);
     State s; s.parent = -1; s.op = -1; s.depth = 0; s.init = (int)INITS.size() - 1;
@@ -1087,7 +1094,7 @@ int run_main(int argc, char** argv) {
       size_t p = txt.find("\"history\""); size_t a = txt.find('[', p), b = txt.find(']', a);
       std::string arr = txt.substr(a + 1, b - a - 1); hs.clear();
       size_t pos = 0; while ((pos = arr.find('"', pos)) != std::string::npos) { size_t e = arr.find('"', pos + 1); if (!hs.empty()) hs += ";"; hs += arr.substr(pos + 1, e - pos - 1); pos = e + 1; }
-      std::string in = field("init"); i0.dim = in.find("dim 2") != std::string::npos ? 2 : 1; i0.empty0 = in.find("p0 = EMPTY") != std::string::npos; i0.box0 = in.find("p0 = BOX02") != std::string::npos; i0.strict0 = in.find("NEGSTRICT") != std::string::npos ? 1 : in.find("POSSTRICT") != std::string::npos ? 2 : 0; i0.name = in;
+      std::string in = field("init"); i0.dim = in.find("dim 2") != std::string::npos ? 2 : 1; i0.empty0 = in.find("p0 = EMPTY") != std::string::npos; i0.box0 = in.find("p0 = BOX02") != std::string::npos; i0.strict0 = in.find("NEGSTRICT") != std::string::npos ? 1 : in.find("POSSTRICT") != std::string::npos ? 2 : in.find("RATGRID") != std::string::npos ? 3 : 0; i0.name = in;
       std::string rd = field("reduction"); for (int k = 0; k < 5; ++k) if (rd == RED_NAMES[k]) RED = k;
     }
     INITS.push_back(i0);
